@@ -4,6 +4,8 @@
 mod coq;
 mod prng;
 mod c07;
+mod c01;
+mod ledger;
 
 pub struct Opts {
     pub seed: u64,
@@ -62,6 +64,7 @@ fn main() {
     std::panic::set_hook(Box::new(|_| {}));
     match prop.as_str() {
         "c07" => c07::run(&o),
+        "c01" => c01::run(&o),
         _ => {
             eprintln!("unknown property {}", prop);
             std::process::exit(2);
